@@ -353,6 +353,12 @@ class DirectoryRecord:
         if self.parent is None:
             raise pycdlibexception.PyCdlibInternalError('Invalid call to create new Rock Ridge on root directory')
 
+        if self.dr_len + rockridge.RRCERecord.length() > rockridge.ALLOWED_DR_SIZE:
+            # Whatever does not fit into the Directory Record goes into a
+            # continuation area, but the record has to hold at least the
+            # entry that points there.
+            raise pycdlibexception.PyCdlibInvalidInput('The ISO9660 identifier is too long to leave room for the Rock Ridge entries')
+
         self.rock_ridge = rockridge.RockRidge()
         is_first_dir_record_of_root = self.file_ident == b'\x00' and self.parent.is_root
         bytes_to_skip = 0
